@@ -3,7 +3,9 @@ package main
 import (
 	"fmt"
 	"go/ast"
+	"go/parser"
 	"go/token"
+	"path/filepath"
 	"strings"
 	"time"
 )
@@ -58,8 +60,7 @@ func authLoopClass(fset *token.FileSet, entry *ast.FuncDecl, root ast.Stmt) stri
 		if n.Pos() > root.Pos() || n.End() < root.End() {
 			return false // only nodes that contain root
 		}
-		if rs, ok := n.(*ast.RangeStmt); ok {
-			x := flat(fset, rs.X)
+		classify := func(x string) {
 			switch {
 			case strings.HasSuffix(x, ".tokens"):
 				cls = "tokens"
@@ -69,9 +70,58 @@ func authLoopClass(fset *token.FileSet, entry *ast.FuncDecl, root ast.Stmt) stri
 				cls = "?" + x
 			}
 		}
+		switch l := n.(type) {
+		case *ast.RangeStmt:
+			classify(flat(fset, l.X))
+		case *ast.ForStmt: // index loop: `for i := 0; i < len(x.tokens) [&& ..]; i++`
+			if l.Cond != nil {
+				ast.Inspect(l.Cond, func(m ast.Node) bool {
+					if ce, ok := m.(*ast.CallExpr); ok && flat(fset, ce.Fun) == "len" && len(ce.Args) == 1 {
+						classify(flat(fset, ce.Args[0]))
+					}
+					return true
+				})
+			}
+		}
 		return true
 	})
 	return cls
+}
+
+// authStructFields: the declared field names of a struct type of the package, in order (embedded fields by type name)
+func authStructFields(repo, typ string) []string {
+	fset := token.NewFileSet()
+	pkgs, err := parser.ParseDir(fset, filepath.Join(repo, authDir), nil, 0)
+	if err != nil {
+		return nil
+	}
+	var out []string
+	for _, p := range pkgs {
+		for _, f := range p.Files {
+			for _, d := range f.Decls {
+				gd, ok := d.(*ast.GenDecl)
+				if !ok || gd.Tok != token.TYPE {
+					continue
+				}
+				for _, sp := range gd.Specs {
+					ts := sp.(*ast.TypeSpec)
+					st, ok := ts.Type.(*ast.StructType)
+					if !ok || ts.Name.Name != typ || out != nil {
+						continue
+					}
+					for _, fl := range st.Fields.List {
+						if len(fl.Names) == 0 {
+							out = append(out, recvTypeName(fl.Type))
+						}
+						for _, n := range fl.Names {
+							out = append(out, n.Name)
+						}
+					}
+				}
+			}
+		}
+	}
+	return out
 }
 
 func authExpiryAtom(s string) (string, bool) {
@@ -137,6 +187,7 @@ func genAuth(repo string) (string, error) {
 	if err != nil {
 		return "", err
 	}
+	consts := pkgConsts(repo, authDir)
 	var sb strings.Builder
 	sb.WriteString("set_option linter.unusedVariables false\nnamespace OntVerif.Gen.Auth\n\n")
 
@@ -191,7 +242,7 @@ func genAuth(repo string) (string, error) {
 			}
 		}
 	}
-	for _, st := range dgSites(funcs, ar, 2) {
+	for _, st := range dgSites(funcs, consts, ar, 2) {
 		ast.Inspect(st.stmt, func(n ast.Node) bool {
 			switch x := n.(type) {
 			case *ast.AssignStmt:
@@ -202,12 +253,15 @@ func genAuth(repo string) (string, error) {
 						}
 					}
 				}
-			case *ast.CompositeLit: // &AuthToken{level: 2, expireTime: ...}
-				for _, el := range x.Elts {
+			case *ast.CompositeLit: // &AuthToken{level: 2, expireTime: ...} or, unkeyed, by the declared field order
+				order := authStructFields(repo, flat(fset, x.Type))
+				for i, el := range x.Elts {
 					if kv, ok := el.(*ast.KeyValueExpr); ok {
 						if id, ok := kv.Key.(*ast.Ident); ok {
 							field(id.Name, st.f.norm(kv.Value))
 						}
+					} else if i < len(order) {
+						field(order[i], st.f.norm(el))
 					}
 				}
 			}
@@ -244,14 +298,14 @@ func genAuth(repo string) (string, error) {
 		})
 		return has
 	}
-	for _, st := range dgSites(funcs, vt, 3) {
+	for _, st := range dgSites(funcs, consts, vt, 3) {
 		// the consultation is either inside the statement (`return funcs.ContainsFunc(fn), nil`) or a guard of it
 		// (`if funcs.ContainsFunc(fn) { return true, nil }`); the path is what guards the consultation
-		path := st.guards
+		path := dgLiterals(st.guards)
 		if !hasContains(st.stmt) {
 			k := -1
-			for i, g := range st.guards {
-				if hasContains(g.e) {
+			for i, l := range path {
+				if hasContains(l.e) {
 					k = i
 					break
 				}
@@ -259,15 +313,14 @@ func genAuth(repo string) (string, error) {
 			if k < 0 {
 				continue
 			}
-			path = st.guards[:k]
+			path = path[:k] // `a && b && funcs.ContainsFunc(fn)`: what stands to the left holds when it is consulted
 		}
-		st.guards = path
 		cls := authLoopClass(fset, vt, st.root)
 		if cls != "tokens" && cls != "status" {
 			return "", fmt.Errorf("%s:verifyToken: ContainsFunc is consulted outside the loops over .tokens / .status (%q)", authDir, cls)
 		}
 		var lits []cond
-		for _, l := range dgLiterals(st.guards) {
+		for _, l := range path {
 			switch {
 			case dgMentions(fset, l.e, authExpiryAtom, "expire"):
 				lits = append(lits, l)
@@ -306,7 +359,7 @@ func genAuth(repo string) (string, error) {
 		return "", fmt.Errorf("%s: func getAuthToken not found", authDir)
 	}
 	live := ""
-	for _, st := range dgSites(funcs, ga, 2) {
+	for _, st := range dgSites(funcs, consts, ga, 2) {
 		r, ok := st.stmt.(*ast.ReturnStmt)
 		if !ok || st.f.fn != ga || len(r.Results) != 2 {
 			continue
@@ -362,7 +415,27 @@ func genAuth(repo string) (string, error) {
 	// the local stored into the new record's .expireTime is the requested expiry; mutable locals fed from a token's
 	// .level / .expireTime are the delegator's level / expiry
 	roleOf := map[string]string{levelParam: "level"}
+	dgLocal := dgDefs(dg, consts)
+	expireIs := func(v ast.Expr) { // the value stored into a record's .expireTime: the local, and what it is defined as
+		if id, ok := stripConv(v).(*ast.Ident); ok {
+			roleOf[id.Name] = "expire"
+			roleOf[flat(fset, stripParens(inlineLocals(id, dgLocal)))] = "expire"
+		}
+	}
 	ast.Inspect(dg.Body, func(n ast.Node) bool {
+		if cl, ok := n.(*ast.CompositeLit); ok {
+			order := authStructFields(repo, flat(fset, cl.Type))
+			for i, el := range cl.Elts {
+				if kv, ok := el.(*ast.KeyValueExpr); ok {
+					if id, ok := kv.Key.(*ast.Ident); ok && id.Name == "expireTime" {
+						expireIs(kv.Value)
+					}
+				} else if i < len(order) && order[i] == "expireTime" {
+					expireIs(el)
+				}
+			}
+			return true
+		}
 		as, ok := n.(*ast.AssignStmt)
 		if !ok || len(as.Lhs) != len(as.Rhs) {
 			return true
@@ -370,9 +443,7 @@ func genAuth(repo string) (string, error) {
 		for i, l := range as.Lhs {
 			r := stripConv(as.Rhs[i])
 			if se, ok := l.(*ast.SelectorExpr); ok && se.Sel.Name == "expireTime" {
-				if id, ok := r.(*ast.Ident); ok {
-					roleOf[id.Name] = "expire"
-				}
+				expireIs(r)
 			}
 			if id, ok := l.(*ast.Ident); ok {
 				if se, ok := r.(*ast.SelectorExpr); ok {
@@ -404,7 +475,7 @@ func genAuth(repo string) (string, error) {
 	}
 	var outer, inner []cond
 	found := 0
-	for _, st := range dgSites(funcs, dg, 2) {
+	for _, st := range dgSites(funcs, consts, dg, 2) {
 		has := false
 		ast.Inspect(st.stmt, func(n ast.Node) bool {
 			if ce, ok := n.(*ast.CallExpr); ok && flat(fset, ce.Fun) == "putDelegateStatus" {
